@@ -185,6 +185,17 @@ def deep(tier, **kw):
     return out
 
 
+def boost(tier, flavour, **kw):
+    """Extra monitor arguments for the quick tier of the plain build (the monitors' built-in quick defaults are sized for
+    the sanitizer re-runs of C20, which are 10-30 times slower; the plain binaries finish them in a second)."""
+    if tier != "quick" or flavour != "plain":
+        return []
+    out = []
+    for k, v in kw.items():
+        out += ["--" + k, str(v)]
+    return out
+
+
 def parted(name, source, nparts, flavour="plain", **kw):
     """A monitor whose single source is compiled nparts times with -DVERIF_PART=k -DVERIF_PARTS=n."""
     tus = [(source, ("-DVERIF_PART=%d" % k, "-DVERIF_PARTS=%d" % nparts)) for k in range(nparts)]
